@@ -42,7 +42,7 @@ func gen(t *rapid.T) Case {
 		if inGroup && i%2 == 1 {
 			p = "/g" + p
 		}
-		d := &hist.DSpec{Type: rapid.SampledFrom([]string{"i32", "f64", "u8", "i64", "f32", "str", "cmp:num", "cmp:str", "vl:str"}).Draw(t, "type")}
+		d := &hist.DSpec{Type: rapid.SampledFrom([]string{"i32", "f64", "u8", "i64", "f32", "str", "cmp:num", "cmp:str", "vl:str", "vl:i64", "vl:f32"}).Draw(t, "type")}
 		if d.Type == "str" {
 			d.StrSize = 6
 		}
